@@ -73,6 +73,8 @@ def run(ctx) -> None:
     r1_r2(ctx, ea)
     r3_definite_assignment(ctx)
     r4_one_error_list(ctx)
+    r5_placeholders_inert(ctx)
+    r1b_text_parsers(ctx)
 
 
 def r1_r2(ctx, ea: EscapeAnalysis) -> None:
@@ -243,9 +245,110 @@ def _anc_until(prog, x: ast.AST, stop: ast.AST):
         yield a
 
 
+TEXT_PARSERS = {
+    # parser of document-controlled text -> exceptions it raises for a str argument (CPython 3.12 re/_parser.py, ipaddress.py)
+    "re.compile": ("re.error", "OverflowError", "RecursionError"),
+    "ip_network": ("ValueError",), "ipaddress.ip_network": ("ValueError",),
+}
+
+
+def r1b_text_parsers(ctx) -> None:
+    from ..raises import caught_locally
+    r, prog = ctx.r, ctx.prog
+    n = 0
+    for f in prog.functions_in("sigma.types", "sigma.modifiers", "sigma.correlations"):
+        for c in walk_no_nested(f.node):
+            if not isinstance(c, ast.Call) or call_name(c) not in TEXT_PARSERS or not c.args or isinstance(c.args[0], ast.Constant):
+                continue
+            n += 1
+            loc = f"{f.module.relpath}:{c.lineno}"
+            missing = []
+            for exc in TEXT_PARSERS[call_name(c)]:
+                h = caught_locally(prog, f, c, exc)
+                if h is None or not any(isinstance(x, ast.Raise) and x.exc is not None and "Sigma" in unparse(x.exc) for x in ast.walk(h)):
+                    missing.append(exc)
+            if missing:
+                r.violation("C07.R1", f.qual, f"{short(c, 60)}: {', '.join(missing)} not converted", f"{call_name(c)}() parses text taken from the rule document and can raise {missing} for it (e.g. a repetition count a{{99999999999999}} → OverflowError); no enclosing handler turns that into a Sigma error, so a non-Sigma exception leaves rule loading", loc)
+            else:
+                r.ok("C07.R1", f.qual, f"{short(c, 50)}: {', '.join(TEXT_PARSERS[call_name(c)])} → Sigma error", loc)
+    if n < 2:
+        raise AnalysisError(f"only {n} parser calls on document text found in the value types (2 confirmed: re.compile, ip_network)")
+
+
+def r5_placeholders_inert(ctx) -> None:
+    """The placeholder a loader substitutes for an invalid part must never be operated on."""
+    from ..tabulate import Interp, Raised
+    r, prog = ctx.r, ctx.prog
+    r.rule("C07.R5", "placeholders are inert: the applicability predicate of a filter evaluates to False on the EmptySigmaGlobalFilter placeholder (rules = [], condition = []) that collecting mode substitutes for an invalid filter section, so apply_on_rule never indexes its empty condition list")
+    ph = prog.cls("sigma.filters.EmptySigmaGlobalFilter")
+    f = prog.func("sigma.filters.SigmaFilter._should_apply_on_rule")
+    g = prog.func("sigma.filters.SigmaFilter.apply_on_rule")
+    # the guard of apply_on_rule
+    first = g.node.body[0]
+    if isinstance(first, ast.If) and "not self._should_apply_on_rule(rule)" in unparse(first.test) and isinstance(first.body[0], ast.Return):
+        r.ok("C07.R5", g.qual, "returns the rule untouched unless _should_apply_on_rule(rule)", g.loc)
+    else:
+        r.violation("C07.R5", g.qual, stmt_head(first), "apply_on_rule no longer starts with the applicability guard", g.loc)
+
+    class _LS:
+        def __contains__(self, o):
+            return True
+
+    class _Filt:
+        rules: list = []
+        condition: list = []
+
+    class _Rule:
+        logsource = object()
+
+    class _Self:
+        filter = _Filt()
+        logsource = _LS()
+
+    class _Corr:
+        pass
+
+    class _Coll:
+        def __init__(self, rules):
+            pass
+
+        def __getitem__(self, k):
+            raise KeyError(k)
+
+    class _Exc:
+        SigmaRuleNotFoundError = KeyError
+
+    it = Interp({"self": _Self(), "rule": _Rule(), "SigmaCorrelationRule": _Corr, "SigmaCollection": _Coll, "sigma_exceptions": _Exc})
+    try:
+        res = it.call(f.node.body)
+    except Raised as e:
+        res = f"<raises {e}>"
+    if res is False:
+        r.ok("C07.R5", f.qual, "evaluated on the placeholder filter state (rules=[], condition=[]) with a matching log source: False", f.loc)
+    else:
+        r.violation("C07.R5", f.qual, f"_should_apply_on_rule(placeholder) = {res!r}", "the placeholder filter that stands for an invalid filter section counts as applicable: apply_on_rule then reads self.filter.condition[0] of an empty list and IndexError leaves SigmaCollection.from_dicts(..., collect_errors=True)", f.loc)
+    defaults = {k: unparse(v[-1].value) if getattr(v[-1], "value", None) is not None else "" for k, v in ph.assigns.items()}
+    if "rules" in defaults and "list" not in defaults["rules"] and "[]" not in defaults["rules"]:
+        r.violation("C07.R5", ph.qual, f"rules = {defaults['rules']}", "the placeholder filter must not target any rule", f"{ph.module.relpath}:{ph.node.lineno}")
+    r.floor("C07.R5", 2)
+
+
 def r4_one_error_list(ctx) -> None:
     r, prog = ctx.r, ctx.prog
-    r.rule("C07.R4", "one error list, one order: strict mode raises errors[0] of the list that collecting mode returns, right before construction; handlers append the caught object itself; the collection propagates each rule's errors in document order")
+    r.rule("C07.R4", "one error list, one order: strict mode raises errors[0] of the list that collecting mode returns, right before construction; handlers append the caught object itself; recorded error objects are never modified afterwards; the collection propagates each rule's errors in document order")
+    # recorded errors are not touched again (strict mode raises the untouched object: the two modes must agree)
+    n_scan = 0
+    for sf in prog.functions_in(*SCOPE):
+        if sf.module.name.startswith("sigma.exceptions"):
+            continue
+        for n in walk_no_nested(sf.node):
+            tg = n.targets[0] if isinstance(n, ast.Assign) else n.target if isinstance(n, (ast.AugAssign, ast.AnnAssign)) else None
+            if isinstance(tg, ast.Attribute):
+                n_scan += 1
+                cls = ctx.types.class_names(sf.module, tg.value)
+                if any(c in prog.classes and is_sigma_error(prog, c) for c in cls):
+                    r.violation("C07.R4", sf.qual, stmt_head(n), "a recorded error object is modified after the fact: strict loading raises the unmodified error, so the first collected error no longer equals the one strict mode raises (SigmaError equality includes the source)", f"{sf.module.relpath}:{n.lineno}")
+    r.ok("C07.R4", "loading modules", f"{n_scan} attribute stores scanned: none writes to a SigmaError object")
     for q in list(ENTRY)[:3]:
         fi = prog.func(q)
         raises = [x for x in walk_no_nested(fi.node) if isinstance(x, ast.Raise)]
